@@ -50,6 +50,26 @@ def sweep(tkey, cname, unit=None, lo_hi=None, unit_how="attr"):
             setattr(m, u.attr, u.members[unit])
         elif unit_how == "set_raw":          # the path the file reader uses
             m.set_raw(u.attr, u.members[unit])
+        elif unit_how.startswith("truncated-file"):
+            # a file whose CVAL list stops BEFORE the unit controller (older layout) is loaded, THEN the unit is chosen
+            import rv.api as rv
+            from rvref import codec
+
+            keep = 0 if unit_how.endswith("0") else u.number - 1
+            chunks = codec.parse_chunks(C.save(rv.Synth(cls())))
+            out_chunks, seen = [], 0
+            for cid, d in chunks:
+                if cid == b"CVAL":
+                    seen += 1
+                    if seen > keep:
+                        continue
+                if cid == b"CMID":
+                    d = d[:8 * keep]
+                    if not d:
+                        continue
+                out_chunks.append((cid, d))
+            m = C.load_bytes(codec.build_chunks(out_chunks)).module
+            setattr(m, u.attr, u.members[unit])
         else:                                 # through a save/load
             setattr(m, u.attr, u.members[unit])
             m = m.clone()
@@ -238,6 +258,9 @@ def run(ctx):
                         # the unit may also arrive through the reader's path (set_raw) or through a save/load
                         tasks.append((tkey, c.name, u, a, b, "set_raw"))
                         tasks.append((tkey, c.name, u, a, b, "clone"))
+                        if a == lo:
+                            tasks.append((tkey, c.name, u, a, min(b, a + 64), "truncated-file-0"))
+                            tasks.append((tkey, c.name, u, a, min(b, a + 64), "truncated-file-k"))
                     a = b + 1 if b == hi else b
     from rvmc.runner import rotate
 
